@@ -253,6 +253,19 @@ for k, t in R12TXT.items():
     lv, eng, tech, text, note = checks[k]
     checks[k] = (lv, eng, tech, text + t, note)
 
+R13TXT = {
+ "C03": " Thirteenth round: one payload list (FRMPayload items / FOpts commands) handed to two frames - both come out as the key-stream transform of the caller's plaintext.",
+ "C06": " Thirteenth round: the same bytes decoded into a payload value that last decoded their complement give the same value.",
+ "C07": " Thirteenth round: every encoding is also decoded into used payload values (which last held the all-ones / all-zero payload).",
+ "C10": " Thirteenth round: the guarded payload buffers also wrapped in proprietary MAC commands (CID 0x80) in FOpts and on port 0.",
+ "C11": " Thirteenth round: binary, text and database forms decoded a second time from the same buffer.",
+ "C18": " Thirteenth round: payloads decoded into values that last decoded a longer / a shorter input.",
+ "C20": " Thirteenth round: the airtime tolerance is the truncation the symbol duration's fractional ns allows - none for 125 / 250 / 500 kHz, where the result is the formula's value to the last ns.",
+}
+for k, t in R13TXT.items():
+    lv, eng, tech, text, note = checks[k]
+    checks[k] = (lv, eng, tech, text + t, note)
+
 def load_extra():
     p = os.path.join(V, "bin", "manifest_table.json")
     if os.path.exists(p):
